@@ -39,6 +39,26 @@ def hypCDF (N K D : Nat) (k : Int) : Rat :=
   if k < hypLo N K D then 0 else if k ≥ hypHi N K D then 1
   else ((List.range (k.toNat + 1)).map fun (i : Nat) => hypPMF N K D (i : Int)).foldl (· + ·) 0
 
+/-! ### The algorithm of `HypergeometicDist.CDF` (Klotz): `pmf(k) · Σ_j pmf(k-j)/pmf(k)`, on either side
+
+`hypTerm N K D k j` is the running term `ak` after `j` steps of the loop in `sum` (exact arithmetic, without the
+early stop at `ak/sum ≤ 1e-14`), `hypSeries` the sum over `j = 0 … k − L`. `hypCDFalg` is the value on the side
+selected by `flip` (the code mirrors the distribution — `Draws ↦ N − Draws`, `k ↦ K − k − 1` — and returns
+one minus the result). `Props/C06Klotz.lean` proves that both sides give `hypCDF`. -/
+
+def hypTerm (N K D k : Nat) : Nat → Rat
+  | 0 => 1
+  | j + 1 =>
+    hypTerm N K D k j * (((1 + k - (j + 1) : Nat) : Rat) / ((D - k + (j + 1) : Nat) : Rat))
+      * ((((N : Int) - K - D + k + 1 - (j + 1) : Int) : Rat) / ((K - k + (j + 1) : Nat) : Rat))
+
+def hypSeries (N K D k : Nat) : Rat :=
+  ((List.range (k - hypLo N K D + 1)).map (hypTerm N K D k)).foldl (· + ·) 0
+
+def hypCDFalg (N K D k : Nat) (flip : Bool) : Rat :=
+  if flip then 1 - hypPMF N K (N - D) ((K - k - 1 : Nat) : Int) * hypSeries N K (N - D) (K - k - 1)
+  else hypPMF N K D (k : Int) * hypSeries N K D k
+
 def hypMean (N K D : Nat) : Rat := (D * K : Nat) / (N : Rat)
 def hypVar (N K D : Nat) : Rat := (D * K * (N - K) * (N - D) : Nat) / ((N * N * (N - 1) : Nat) : Rat)
 
